@@ -13,6 +13,7 @@ CONSTANTS
   IgnoreTimeout = TRUE
   ForcedWaits = FALSE
   LifoQueue = FALSE
+  DrainOnlyAtStop = FALSE
 SPECIFICATION FairSpec
 PROPERTIES C06w_StopAnswered
 CHECK_DEADLOCK FALSE
